@@ -60,13 +60,13 @@ func (eng) Rule(mode string) string {
 	if mode == "slot" {
 		return "a real operator with 1..3 upstream source runners receives barriers of checkpoint a from a strict subset (possibly empty) of its runners, is deployed again (surviving worker), optionally receives stale barriers of a from a strict subset after the redeploy (known finding), then receives all barriers of checkpoint b; a retention update is sent before the first deploy; parking is observed at the operator.align.park hook, not by time-out; non-trivial: at least one barrier was registered before the second deploy"
 	}
-	return "histories over WorkerCount 1..3 with 0..2 standby nodes per kind: registrations in random order, heartbeats, graceful deregistration and kills (heartbeat expiry by advancing the frozen clock) of assembly members before / during deployment (Deploy gated) and during an in-flight checkpoint (some acks delivered), failed deployments, checkpoint rounds with acks in random order, stale / foreign / duplicate acks. Non-trivial: at least one deployment completed and at least one fault or checkpoint happened; distinct by hash of the op list."
+	return "histories over WorkerCount 1..3 with 0..2 standby nodes per kind: registrations in random order, heartbeats, graceful deregistration and kills (heartbeat expiry by advancing the frozen clock) of assembly members before / during deployment (Deploy gated) and during an in-flight checkpoint (some acks delivered) - periodic, a requested savepoint (HandleCreateSavepoint on an idle store) or a periodic checkpoint upgraded to a savepoint (request folding into it) -, failed deployments, checkpoint rounds with acks in random order, stale / foreign / duplicate acks. Non-trivial: at least one deployment completed and at least one fault or checkpoint happened; distinct by hash of the op list."
 }
 
 // ---------------------------------------------------------------- ops (JSON, self-contained)
 
 type jop struct {
-	K   string `json:"k"`             // reg | dereg | deregm | killm | hb | adv | fin | tick | ackm | ackn | ackall
+	K   string `json:"k"`             // reg | dereg | deregm | killm | hb | adv | fin | tick | sp | ackm | ackn | ackall
 	Who string `json:"who,omitempty"` // "op" | "sr"
 	N   int    `json:"n,omitempty"`   // node number / member position / milliseconds / permutation seed
 	D   int    `json:"d,omitempty"`   // ack: checkpoint id = last started id + d
@@ -565,6 +565,39 @@ func (h *harness) tick() step {
 	return step{"OTick", o}
 }
 
+// savepoint: Job.HandleCreateSavepoint (a user request): starts a checkpoint flagged as a savepoint, or folds into the
+// periodic checkpoint in flight
+func (h *harness) savepoint() step {
+	o := obs{}
+	h.job.VerifSync()
+	h.mu.Lock()
+	h.ckStarts = nil
+	h.mu.Unlock()
+	id, err := h.job.HandleCreateSavepoint(context.Background())
+	if err != nil {
+		o.Res = 1
+	} else {
+		o.Cid = id
+	}
+	h.mu.Lock()
+	cs := h.ckStarts
+	h.ckStarts = nil
+	h.mu.Unlock()
+	sort.Slice(cs, func(i, j int) bool { return cs[i].sr < cs[j].sr })
+	for _, c := range cs {
+		o.Started = append(o.Started, nodeNum(c.sr))
+		if c.id != id {
+			o.Cid = 999999
+		}
+	}
+	if err == nil && len(cs) > 0 && o.Cid != 999999 {
+		h.lastCk = id
+	}
+	st, deps := h.settle()
+	o.Status, o.Deps = statusN(st), deps
+	return step{"OSavepoint", o}
+}
+
 func (h *harness) ack(who, id string, ck uint64) (s step) {
 	o := obs{}
 	h.mu.Lock()
@@ -673,6 +706,8 @@ func (h *harness) run(ops []jop) []step {
 			out = append(out, h.fin(op.OK, op.N))
 		case "tick":
 			out = append(out, h.tick())
+		case "sp":
+			out = append(out, h.savepoint())
 		case "ackm":
 			if id, ok := h.member(op.Who, op.N); ok {
 				out = append(out, h.ack(op.Who, id, h.ckID(op.D)))
@@ -763,7 +798,19 @@ func (e eng) Execute(mode string, c *hx.Case) (*hx.Result, error) {
 	deploys, finOK, cks, pubs, faults := 0, 0, 0, 0, 0
 	prevRunning := false
 	pendingCk := false
+	pendingSp := false
 	for i, s := range steps {
+		if s.op == "OSavepoint" && s.o.Res == 0 {
+			if len(s.o.Started) > 0 {
+				tags["savepoint-started"] = true
+			} else {
+				tags["savepoint-folded-into-checkpoint"] = true
+			}
+			pendingSp = true
+		}
+		if s.op == "OSavepoint" && s.o.Res == 1 {
+			tags["savepoint-refused"] = true
+		}
 		terms[i] = fmt.Sprintf("(%s, %s)", s.op, obsTerm(s.o))
 		observed = append(observed, map[string]any{"op": s.op, "obs": s.o})
 		deploys += len(s.o.Deps)
@@ -786,6 +833,10 @@ func (e eng) Execute(mode string, c *hx.Case) (*hx.Result, error) {
 		if s.o.Published != 0 {
 			pubs++
 			pendingCk = false
+			if pendingSp {
+				tags["savepoint-published"] = true
+			}
+			pendingSp = false
 			if finOK > 1 {
 				tags["checkpoint-published-after-recovery"] = true
 			}
@@ -796,6 +847,10 @@ func (e eng) Execute(mode string, c *hx.Case) (*hx.Result, error) {
 			if pendingCk {
 				tags["fault-with-checkpoint-in-flight"] = true
 			}
+			if pendingCk && pendingSp {
+				tags["fault-with-savepoint-in-flight"] = true
+			}
+			pendingSp = false
 		}
 		if s.o.Status == 2 && (strings.HasPrefix(s.op, "ODereg") || strings.HasPrefix(s.op, "OAdv")) {
 			tags["membership-change-during-deploy"] = true
